@@ -163,6 +163,97 @@ def native_f6():
         return {"reproduced": False, "reason": f"{type(e).__name__}: {str(e)[:100]}"}
 
 
+def interpreted_worker(arg):
+    """the REAL integrate over the REAL Module.step on symbolic tables (voltage solver = uninterpreted function of its
+    arguments): continuation and manual stepping as equalities of the recorded TERMS, including recorded currents"""
+    tier, canary = arg
+    from . import common
+    undo = common.apply_canary(*canary) if canary else None
+    try:
+        return _interpreted(tier)
+    finally:
+        if undo:
+            undo()
+
+
+def _interpreted(tier):
+    import jax
+    jax.config.update("jax_enable_x64", True)
+    import jax.numpy as jnp
+    import z3
+    import jaxley as jx
+    from jaxley.channels import HH, Leak
+    from ..sym import Ctx, Sym, SymArray
+    from .isim import ISim
+    out = {"results": [], "error": "", "reached": {}}
+    try:
+        models = []
+        c1 = jx.Cell()
+        c1.insert(HH())
+        for st in ("v", "i_HH", "HH_m"):
+            c1.record(st, verbose=False)
+        c1.stimulate(jnp.ones(4) * 0.1, verbose=False)
+        models.append(("one compartment, HH, records v / i_HH / HH_m, one stimulus", c1, 1))
+        comp = jx.Compartment()
+        c2 = jx.Cell([jx.Branch(comp, ncomp=2)], parents=[-1])
+        c2.insert(Leak())
+        c2.comp(1).insert(HH())
+        c2.comp(0).record("v", verbose=False)
+        c2.comp(1).record("i_HH", verbose=False)
+        c2.comp(1).record("i_Leak", verbose=False)
+        c2.comp(0).stimulate(jnp.ones(4) * 0.1, verbose=False)
+        c2.comp(1).clamp("HH_m", jnp.ones(4) * 0.3, verbose=False)
+        models.append(("two compartments, Leak + partial HH, records v / i_HH / i_Leak, stimulus and a clamped gate", c2, 1))
+        dt = Sym(z3.Real("dt"))
+        T = 3 if tier == "quick" else 4
+
+        def ext(m, lo, hi):
+            return {k: SymArray(np.asarray([[Sym(z3.Real(f"{k}{r}_{j}")) for j in range(lo, hi)] for r in range(np.asarray(v).shape[0])], dtype=object)) for k, v in m.externals.items()}
+
+        def same(a, b):
+            a, b = np.asarray(a, dtype=object), np.asarray(b, dtype=object)
+            return a.shape == b.shape and all(x.e.eq(y.e) or z3.simplify(x.e - y.e).eq(z3.RealVal(0)) for x, y in zip(a.reshape(-1), b.reshape(-1)))
+        for name, mod, _ in models:
+            Ctx.reset()
+            s = ISim(mod)
+            full, stf = s.run(ext(mod, 0, T), delta_t=dt, return_states=True)
+            out["reached"].update(s.sm.rt.reached)
+            for n1 in range(1, T):
+                Ctx.reset()
+                a, st1 = ISim(mod).run(ext(mod, 0, n1), delta_t=dt, return_states=True)
+                b, st2 = ISim(mod).run(ext(mod, n1, T), delta_t=dt, all_states=st1, return_states=True)
+                ok = same(np.asarray(full, dtype=object)[:, :n1 + 1], a) and same(np.asarray(full, dtype=object)[:, n1:], b)
+                out["results"].append(_res(f"interpreted integrate[{name}]:{n1}+{T - n1} steps in one call == {n1} steps then {T - n1} from the returned states (all recorded terms, the seam column included)", ok, backend="structural"))
+                oks = sorted(stf) == sorted(st2) and all(same(stf[k], st2[k]) for k in stf)
+                out["results"].append(_res(f"interpreted integrate[{name}]:state returned after {n1}+{T - n1} continued steps == state returned by the single call", oks, backend="structural"))
+            # manual stepping
+            Ctx.reset()
+            s = ISim(mod)
+            init_fn, step_fn = s.build(s.sm.px, voltage_solver="jaxley.stone", solver="bwd_euler")
+            s.sm.px.to_jax()
+            states, params = init_fn([], None, None, dt)
+            E = ext(mod, 0, T)
+            cols = [[states[st][int(ix)] for st, ix in zip(mod.recordings.state, mod.recordings.rec_index)]]
+            for k in range(T):
+                ek = {key: v[:, k] for key, v in E.items()}
+                states = step_fn(states, params, ek, {kk: np.asarray(vv) for kk, vv in mod.external_inds.items()}, dt)
+                cols.append([states[st][int(ix)] for st, ix in zip(mod.recordings.state, mod.recordings.rec_index)])
+            man = np.asarray(cols, dtype=object).T
+            out["results"].append(_res(f"interpreted build_init_and_step_fn[{name}]:init_fn then {T} x step_fn reproduces the recordings of integrate", same(full, man), backend="structural"))
+            for cl in ([T], [1, T], [2, 2] if T <= 4 else [2, 3]):
+                import math
+                if math.prod(cl) < T:
+                    continue
+                Ctx.reset()
+                r2 = ISim(mod).run(ext(mod, 0, T), delta_t=dt, checkpoint_lengths=cl)
+                out["results"].append(_res(f"interpreted integrate[{name}]:checkpoint_lengths={cl} returns the recordings of the plain call", same(full, r2), backend="structural"))
+    except Exception as e:
+        out["error"] = f"{type(e).__name__}: {e}\n{traceback.format_exc(limit=8)}"
+    return out
+
+
+
+
 def main(tier):
     ck = Check(PID, tier)
     n = len(base_scenarios(tier))
@@ -182,6 +273,16 @@ def main(tier):
             if r["status"] == "refuted":
                 rp = native_f6() if "returned state" in r["name"] else {"reproduced": False}
                 ck.violation(r["name"], {"solver": r["backend"], "solver_output": r["detail"], "kind": "c07", "replay_module": "jxverif.props.C07", "replay": rp}, reproduced=rp.get("reproduced", False))
+    outs_i = run_units("jxverif.props.C07", "interpreted_worker", [(tier, None)])
+    oi = outs_i[0]
+    if oi[0] != "ok" or oi[1]["error"]:
+        ck.error(str(oi[1] if oi[0] != "ok" else oi[1]["error"])[:900])
+    else:
+        for r in oi[1]["results"]:
+            ck.add(r)
+            if r["status"] == "refuted":
+                ck.violation(r["name"], {"solver": r["backend"], "solver_output": r["detail"], "kind": "c07-interpreted"}, reproduced=False)
+        ck.extra.setdefault("code_reached", {}).update({k: v for k, v in oi[1]["reached"].items() if k.startswith("jaxley")})
     if known_hits:
         rec = [k for k in ck.known if k["id"] == "F6"][0]
         rp = native_f6()
